@@ -375,8 +375,8 @@ def run(tier, seed):
     def mk_versions(nlat):
         def f(k, a):
             if k < nlat:
-                return lat_versions if not quick else rnd.sample(lat_versions, 50)
-            return R.versions_near(rnd, a, 12)
+                return lat_versions if not quick else R.versions_near(rnd, a, 4) + rnd.sample(lat_versions, 20)
+            return R.versions_near(rnd, a, 6)
         return f
     total = 0
     nontrivial = 0
@@ -396,13 +396,12 @@ def run(tier, seed):
         rep.cov['samples'].append({'stream': eco, 'spec': st.inputs[-1]['spec'], 'versions': st.inputs[-1]['versions'][:4], 'impl': st.outs[-1]})
         if eco == 'npm':
             # the delegating matchers (pnpm catalog, JSR) must behave exactly like npm
-            sub = rnd.sample(st.inputs, min(len(st.inputs), 200 if quick else 3000))
+            idxs = rnd.sample(range(len(st.inputs)), min(len(st.inputs), 200 if quick else 3000))
             for other in ('pnpm', 'jsr'):
-                cs, err = harness_cases('matchers', [dict(i, eco=other) for i in sub])
-                ref = {i['spec']: o for i, o in zip(st.inputs, st.outs)}
-                for i, c in zip(sub, cs):
-                    if c['out'] != ref[i['spec']]:
-                        rep.violation(f'{other} matcher differs from npm on {i["spec"]!r}', {'stream': other, 'input': i, 'npm': ref[i['spec']], other: c['out']})
+                cs, err = harness_cases('matchers', [dict(st.inputs[i], eco=other) for i in idxs])
+                for i, c in zip(idxs, cs):
+                    if c['out'] != st.outs[i]:
+                        rep.violation(f'{other} matcher differs from npm on {st.inputs[i]["spec"]!r}', {'stream': other, 'input': st.inputs[i], 'npm': st.outs[i], other: c['out']})
                 rep.cov['streams'][other] = {'cases': len(cs), 'compared_with': 'npm'}
     seeds = ['^1.2.3', '>=1.0.0 <2.0.0', '1.0.0 - 2.0.0', '^1 || ^2', '~1.2', '1.x', '>=1.2.3, <2', 'v1.2.3', 'v4', 'v2.0.0+incompatible']
     st = raw_stream(rep, rnd, 300 if quick else 6000, seeds)
